@@ -174,17 +174,25 @@ func initState(obj string) seqState {
 	}
 }
 
-// linearizable: Wing–Gong search with memoisation on (set of linearized ops, state).
-// An op may be linearized next iff no other unlinearized op returned before it was invoked.
-func linearizable(obj string, ops []opRec) bool {
-	n := len(ops)
-	// well-formedness: a thread has at most one operation in flight
+// wellFormed: a thread has at most one operation in flight (the Lean driver answers
+// err=annotation otherwise: its verdicts are proved exact only for well-annotated histories).
+func wellFormed(ops []opRec) bool {
 	for i, a := range ops {
 		for _, b := range ops[i+1:] {
 			if a.T == b.T && a.Inv < b.Ret && b.Inv < a.Ret {
 				return false
 			}
 		}
+	}
+	return true
+}
+
+// linearizable: Wing–Gong search with memoisation on (set of linearized ops, state).
+// An op may be linearized next iff no other unlinearized op returned before it was invoked.
+func linearizable(obj string, ops []opRec) bool {
+	n := len(ops)
+	if !wellFormed(ops) {
+		return false
 	}
 	// done-set as a bit vector of any length (spin histories have a few hundred operations)
 	words := (n + 63) / 64
